@@ -485,7 +485,7 @@ func TestCheck(t *testing.T) {
 	svc3.AddInstanceMethods(svcObj{})
 	ents := entries()
 	dests := destTypes()
-	r.Meta("rule", "valid streams (C01 universe sample, hand-written streams using every tag, RPC requests and responses) are mutated: every truncation; every single-byte substitution from a 48-byte alphabet of tags/digits/delimiters/boundary bytes (exhaustive on streams <= 48 bytes in quick, <= 96 in thorough, sampled on longer ones); single insertions and deletions; grammar-aware replacement of every count/length/reference/class index by 22 hostile values; container tag swaps; seeded random byte strings. Each mutant is decoded into its own type, interface{} and seeded other destinations through Unmarshal, Decoder.Read (two values), reader mode, Service.Handle (9 published signatures, with and without missing-method handler) and ClientCodec.Decode (6 return-type sets). Monitors: recover (panic), child death (fatal error / OOM under ulimit -v), per-case watchdog (hang), heap bytes allocated per decode <= 1 MiB + 4096 B per input byte, thread CPU time per decode <= 250 ms + 2 us per input byte. Hand-written amplification literals (exponents of 5..20 digits in i/l/d tokens and in strings, 60 000-digit numbers, lists and maps nested 1 000 / 10 000 / 100 000 deep, closed and unclosed, 1 000 references to a 50 KB string or byte string, a 200-field class instantiated 300 times) are decoded into every destination under the same monitors. distinct_nontrivial = distinct mutated inputs (hashed) executed Added: a decode entry with every decoder setting at a non-default value (struct values, typed slices, interface-keyed maps, big numbers) for all hostile literals and a quarter of the mutants; objects of registered classes with slice/map/interface fields used as map keys.")
+	r.Meta("rule", "valid streams (C01 universe sample, hand-written streams using every tag, RPC requests and responses) are mutated: every truncation; every single-byte substitution from a 48-byte alphabet of tags/digits/delimiters/boundary bytes (exhaustive on streams <= 48 bytes in quick, <= 96 in thorough, sampled on longer ones); single insertions and deletions; grammar-aware replacement of every count/length/reference/class index by 22 hostile values; container tag swaps; seeded random byte strings. Each mutant is decoded into its own type, interface{} and seeded other destinations through Unmarshal, Decoder.Read (two values), reader mode, Service.Handle (9 published signatures, with and without missing-method handler) and ClientCodec.Decode (6 return-type sets). Monitors: recover (panic), child death (fatal error / OOM under ulimit -v), per-case watchdog (hang), heap bytes allocated per decode <= 1 MiB + 4096 B per input byte, thread CPU time per decode <= 250 ms + 2 us per input byte. Hand-written amplification literals (exponents of 5..20 digits in i/l/d tokens and in strings, 60 000-digit numbers, lists and maps nested 1 000 / 10 000 / 100 000 deep, closed and unclosed, 1 000 references to a 50 KB string or byte string, a 200-field class instantiated 300 times) are decoded into every destination under the same monitors. distinct_nontrivial = distinct mutated inputs (hashed) executed Added: a decode entry with every decoder setting at a non-default value (struct values, typed slices, interface-keyed maps, big numbers) for all hostile literals and a quarter of the mutants; objects of registered classes with slice/map/interface fields used as map keys; 400 nested list headers (counts fitting the unread input) into 400-level map and slice types built with reflect.")
 	r.Meta("assumptions", []string{
 		"malformed input that is accepted without error is counted (stats.accepted), not reported: C04 is about crashes, hangs and over-allocation",
 		"inputs are at most 4 KiB (+ mutation); the allocation budget is linear in the input length",
@@ -564,6 +564,32 @@ func TestCheck(t *testing.T) {
 			c.R.Distinct("hostile|" + hl.label)
 		})
 	}
+	// list headers nested 400 deep, each count fitting the unread input, decoded into a map type
+	// nested as deep (built with reflect.MapOf): every level's pre-allocation must come out of
+	// the one per-input budget, whatever container kind the destination makes of the list
+	r.Case("hostile/nested-list-headers-into-a-400-level-map-type", func(c *h.Case) {
+		const levels = 400
+		mt := reflect.TypeOf(int(0))
+		st := reflect.TypeOf(int(0))
+		for i := 0; i < levels; i++ {
+			mt = reflect.MapOf(reflect.TypeOf(int(0)), mt)
+			st = reflect.SliceOf(st)
+		}
+		data := append(bytes.Repeat([]byte("a20000{"), levels), bytes.Repeat([]byte("0"), 22000)...)
+		for _, d := range []reflect.Type{mt, st} {
+			for e := range ents {
+				if e == 2 {
+					continue
+				}
+				for _, simple := range []bool{false, true} {
+					one(c, job{data: data, simple: simple, dest: d, entry: e, kind: "io"}, ents, false)
+					one(c, job{data: data, simple: simple, dest: d, entry: e, kind: "io"}, ents, true)
+					c.R.Eval(1)
+				}
+			}
+		}
+		c.R.Distinct("hostile|nested-list-headers-into-deep-types")
+	})
 	nrand := r.Pick(200, 4000)
 	if light && nrand > 400 {
 		nrand = 400
